@@ -35,9 +35,10 @@
      "The second frame consists of the projection coefficients, from the linear projection into the basis.
       The coefficients are float64, and the size of the second frame should be 8 times the number of
       coefficients."
-   The last field of the summary header ends at byte 40 + 8 = 48; the sentence "the header, which is 36 bytes
-   long" in that section is a copy of the records section and contradicts the section's own field table.
-   The property statement (properties.jsonl C14) says "the documented 48-byte header": 48 it is.
+   The summary header is 48 bytes (last field: byte 40 + 8).  Until /repo commit 9af8301 the prose of that
+   section said "the header, which is 36 bytes long" (a copy of the records section) in contradiction with
+   its own field table; the property statement (properties.jsonl C14) says "the documented 48-byte header",
+   the code writes 48 bytes, and the document was corrected.
 
    Floats are not interpreted: a float field is recovered as its IEEE bit pattern (an integer below 2^32 /
    2^64).  Trigger time is a signed count of nanoseconds (times before 1970 are negative) and Go's frame
